@@ -3,7 +3,7 @@
 (* C05 - extensions decode by IANA type; GREASE and unknown types are      *)
 (* preserved.                                                              *)
 (***************************************************************************)
-EXTENDS Calls, Emit
+EXTENDS Corpus, Emit
 
 C == INSTANCE Calls WITH RangeMode <- FALSE
 
@@ -45,6 +45,7 @@ TypedVals ==
          digest |-> <<>>, esni |-> Fill(2, 300)],
         [t |-> "EncryptedServerName", tag |-> 65486, cipher |-> 0, group |-> 65535, key_share |-> <<>>,
          digest |-> <<9>>, esni |-> <<>>] >>
+  \o CxExtVals       \* Corpus.tla: names that are long, multi-byte, not UTF-8, NUL-carrying, dot-terminated
 
 GreasePoints == [k \in 0..15 |-> 2570 + 4112 * k]
 GreaseVals == [k \in 1..32 |-> [t |-> "Grease", tag |-> GreaseTag, ty |-> GreasePoints[(k - 1) \div 2],
@@ -141,10 +142,29 @@ InnerLies == <<
   <<0, 5, 0, 0>>, <<0, 1, 0, 0>>, <<0, 15, 0, 0>>, <<0, 28, 0, 1, 7>>, <<0, 42, 0, 2, 0, 0>>,
   <<0, 43, 0, 0>>, <<0, 43, 0, 1, 2>>, <<0, 43, 0, 4, 2, 3, 4, 5>>, <<0, 45, 0, 2, 5, 1>>, <<0, 45, 0, 0>>,
   <<0, 48, 0, 3, 0, 9, 1>>, <<255, 1, 0, 1, 5>>, <<255, 206, 0, 4, 19, 1, 0, 29>>, <<0, 18, 0, 1, 0>> >>
+Pad10 == <<1, 1, 1, 1, 1, 1, 1, 1, 1, 1>>
 InnerCases ==
   Concat([q \in 1..Len(InnerLies) |->
-    [w \in 1..3 |-> [kind |-> "inner", fn |-> FnOf(Whichs[w]), which |-> Whichs[w], bytes |-> InnerLies[q],
-                     val |-> 0, extra |-> 0]]])
+    Concat([w \in 1..3 |->
+      [s \in 1..2 |-> [kind |-> "inner", fn |-> FnOf(Whichs[w]), which |-> Whichs[w],
+                       bytes |-> InnerLies[q] \o (IF s = 1 THEN <<>> ELSE Pad10), val |-> 0, extra |-> 0]]])])
+(* the same lies through the tag-specific parsers, alone and followed by bytes that a decoder reading past the *)
+(* extension's own length would pick up                                                                        *)
+TagLieIdx == SelectSeq([q \in 1..Len(InnerLies) |-> q],
+                       LAMBDA q : (InnerLies[q][1] * 256 + InnerLies[q][2]) \in (TagParserTypes \ {22, 23, 35, 41, 44, 51}))
+TagInnerCases ==
+  Concat([h \in 1..Len(TagLieIdx) |->
+    LET l == InnerLies[TagLieIdx[h]] IN
+    [s \in 1..2 |-> [kind |-> "taginner", fn |-> TagFnOf(l[1] * 256 + l[2]), which |-> "generic",
+                     bytes |-> l \o (IF s = 1 THEN <<>> ELSE Pad10), val |-> 0, extra |-> 0]]])
+(* long lists: the number of extensions in a block is bounded by the block length only *)
+MiniExts == << <<0, 22, 0, 0>>, <<0, 23, 0, 0>>, <<0, 99, 0, 0>>, <<10, 10, 0, 0>>, <<0, 49, 0, 0>> >>
+LongNs == <<256, 257, 300, 1000, 16383>>
+LongListCases ==
+  Concat([q \in 1..Len(LongNs) |->
+    [w \in 1..3 |-> [kind |-> "longlist", fn |-> ListFnOf(Whichs[w]), which |-> Whichs[w],
+                     bytes |-> Concat([k \in 1..LongNs[q] |-> MiniExts[(k % 5) + 1]]),
+                     val |-> LongNs[q], extra |-> 0]]])
 
 (* lists *)
 PoolIdx == <<2, 5, 9, 13, 27, 50, NT + 1, NT + 6, NT + 33, NT + 34>>
@@ -162,7 +182,7 @@ BrokenListCases ==
                        bytes |-> (IF h = 1 THEN <<>> ELSE EncExt(Vals[5])) \o BrokenTails[q], val |-> h, extra |-> 0]]])])
 
 ASSUME TLCSet(1, SingleCases \o TagCases \o ForeignTagCases \o EmptyOnlyCases \o BeyondCases \o SpecialCases
-                 \o InnerCases \o ListCases \o BrokenListCases)
+                 \o InnerCases \o TagInnerCases \o LongListCases \o ListCases \o BrokenListCases)
 ASSUME TLCSet(3, Lists)
 Cases == TLCGet(1)
 N == Len(Cases)
@@ -198,6 +218,20 @@ TagParserAcceptsOwnType ==
   LET c == Cases[i] IN
   /\ c.kind = "tag" => (cres.k = "ok" /\ cres.v = Vals[c.val] /\ cres = C!DecExt("generic", c.bytes, 0, Len(c.bytes)))
   /\ c.kind = "foreigntag" => (res.k = "err" /\ res.e = "Tag")
+  /\ c.kind = "taginner" => LET g == C!DecExt("generic", c.bytes, 0, Len(c.bytes)) IN
+                            ((cres.k = "ok") = (g.k = "ok")) /\ (cres.k = "ok" => cres = g)
+(* a lying inner length never yields a value built from bytes outside the extension: with or without bytes following *)
+(* the extension, the verdict is the same                                                                           *)
+InnerLieIgnoresWhatFollows ==
+  LET c == Cases[i] IN
+  (c.kind \in {"inner", "taginner"} /\ Len(c.bytes) > 10 /\ SubSeq(c.bytes, Len(c.bytes) - 9, Len(c.bytes)) = Pad10) =>
+     LET alone == C!Apply(c.fn, NoArgs, SubSeq(c.bytes, 1, Len(c.bytes) - 10)) IN
+     /\ cres.k = alone.k /\ (cres.k = "ok" => (cres.v = alone.v /\ cres.p = alone.p))
+LongLists ==
+  LET c == Cases[i] IN
+  c.kind = "longlist" =>
+    /\ cres.k = "ok" /\ cres.p = Len(c.bytes) /\ Len(cres.v) = c.val
+    /\ \A k \in 1..c.val : cres.v[k] = C!DecExt(c.which, MiniExts[(k % 5) + 1], 0, 4).v
 
 EmptyOnlyExtensions ==
   LET c == Cases[i] IN
@@ -216,7 +250,8 @@ ListWholeBlock ==
 
 Pin ==
   LET c == Cases[i] IN
-  IF c.kind \in {"single", "tag", "list", "special"} THEN "full"
+  IF c.kind \in {"single", "tag", "list", "special", "longlist"} THEN "full"
+  ELSE IF c.kind = "taginner" THEN (IF res.k = "ok" THEN "full" ELSE "novalue")
   ELSE IF c.kind = "foreigntag" THEN "err_kind"
   ELSE IF c.kind = "beyond" THEN "novalue"
   ELSE IF c.kind = "emptyonly" THEN (IF res.k = "ok" THEN "full" ELSE "novalue")
